@@ -78,4 +78,7 @@ C47_VerifyExact ==
   (ev.ev = "Sig" /\ ~IsKnown(ev)) => /\ (ev.verified <=> (ev.sk = ev.vk /\ ev.sh = ev.vh /\ ev.mg = "none"))
                    /\ (ev.id_ok <=> (ev.idkey = ev.idclaim))
                    /\ ev.id_is_hash
+                   \* the genuine triple verifies (twice), and then still nothing verifies under a related key
+                   \* (one bit of the signer's key flipped) or a related hash (a byte appended / removed)
+                   /\ ev.genuine_ok /\ ~ev.related_ok
 =============================================================================
